@@ -26,6 +26,8 @@ def main(argv):
         return usage()
     pid, mode = argv[0].upper(), argv[1]
     try:
+        if os.environ.get("VERIF_HOST") == "1" and mode in ("batch", "replay"):
+            runner.host_application_settings()      # imports the package under the settings of a "host application"
         runner.import_target()
         mod = importlib.import_module("vf.props." + pid.lower())
     except runner.HarnessError as e:
